@@ -4,23 +4,39 @@ import LitexModel.Verilog.Expr
   C01 — the expression printer of `litex/gen/fhdl/expression.py`, decision by decision.
 
   `printE e = (verilog expression, s)` where `s` is the printer's own idea of the signedness of the printed
-  text (the second component of `_generate_expression`).  Deliberately faithful to the code that exists:
-    * `_generate_constant` prints `w'd|v|` with a leading `-` for negative values and never an `s`
-      (so the Verilog literal is unsigned whatever `Constant.signed` says) but *reports* `node.signed`;
+  text (the second component of `_generate_expression`).  Faithful to the code that exists (after the `fix:`
+  commits for the findings C01-signed-const-unsigned-literal, C01-comparison-reported-signed,
+  C01-slice-reported-signed and C01-signed-1bit-noslice):
+    * `_generate_constant` prints a signed `Constant` as the signed literal `w'sdP` with `P` the two's-complement
+      pattern `value & (2^w - 1)` (right in every signed context, also for the most negative value — `-w'sd|v|`
+      would not be) and an unsigned one as `w'd|v|` with a leading `-` for negative values; it reports `node.signed`;
     * `_generate_operator` promotes an operand it believes unsigned with `$signed({1'd0, r})` when the other
-      one is believed signed (not for `<<<`/`>>>`), and reports `s1 or s2` for every binary operator
-      (also for comparisons, whose Verilog result is unsigned);
-    * `_generate_slice` appends `[hi:lo]` / `[i]` (nothing for a 1-bit operand) and reports the sign of the
-      sliced value (a Verilog part-select is unsigned);
+      one is believed signed (not for `<<<`/`>>>`), and reports `s1 or s2` for arithmetic/bitwise/shift operators
+      and *unsigned* for comparisons (as Verilog does);
+    * `_generate_slice` appends `[hi:lo]` / `[i]`, nothing for a 1-bit operand (which is wrapped in `{…}` when it
+      is signed, so that the text stays an unsigned view), and reports unsigned (a Verilog part-select is unsigned);
     * `_generate_cat` reverses the list, `_generate_replicate` prints `{n{v}}`; both report unsigned.
+  Case items (`printItems`, PrintStmt.lean) keep the unsigned form `-w'd|v|` (`printConstU`): `_generate_node`
+  strips the sign flag of the key, because the items of a `case` are matched as bit patterns in an unsigned
+  context as soon as one item is unsigned.
 -/
 namespace Litex.C01
 
 /-- `to_signed(r)` = `$signed({1'd0, r})`. -/
 def toSignedV (r : VExpr) : VExpr := .signed (.concat [.lit 1 false 0, r])
 
+/-- Unsigned constant text: `w'dV`, `-w'd|V|` for negative values. -/
+def printConstU (v : Int) (w : Nat) : VExpr :=
+  if 0 ≤ v then .lit w false v.toNat else .un .neg (.lit w false v.natAbs)
+
+/-- `_generate_constant`: signed constants as `w'sdP`, `P = v mod 2^w`. -/
 def printConst (v : Int) (w : Nat) (s : Bool) : VExpr × Bool :=
-  (if 0 ≤ v then .lit w false v.toNat else .un .neg (.lit w false v.natAbs), s)
+  if s then (.lit w true (tn w v).toNat, true) else (printConstU v w, false)
+
+/-- A constant is printable: its value is representable in its declared width/sign (unsigned constants may
+    carry a negative value, printed with a leading `-`). -/
+def constOk (v : Int) (w : Nat) (s : Bool) : Bool :=
+  (if s then inRange w true v else decide (v.natAbs < 2 ^ w)) && decide (0 < w)
 
 def vop : Op2 → VBin
   | .add => .add | .sub => .sub | .mul => .mul | .shl => .shl | .shr => .shr
@@ -42,7 +58,7 @@ def printE : Expr → VExpr × Bool
     let r2 := printE b
     if o.isShift then (.bin (vop o) r1.1 r2.1, r1.2 || r2.2)
     else (.bin (vop o) (if r2.2 && !r1.2 then toSignedV r1.1 else r1.1)
-                       (if r1.2 && !r2.2 then toSignedV r2.1 else r2.1), r1.2 || r2.2)
+                       (if r1.2 && !r2.2 then toSignedV r2.1 else r2.1), !o.isCmp && (r1.2 || r2.2))
   | .mux c a b =>
     let r1 := printE c
     let r2 := printE a
@@ -51,9 +67,9 @@ def printE : Expr → VExpr × Bool
                 (if r2.2 && !r3.2 then toSignedV r3.1 else r3.1), r2.2 || r3.2)
   | .slice a lo hi =>
     let r := printE a
-    if (bitsSign a).1 = 1 then r
-    else if hi - lo > 1 then (.psel r.1 (hi - 1) lo, r.2)
-    else (.bsel r.1 lo, r.2)
+    if (bitsSign a).1 = 1 then (if r.2 then .concat [r.1] else r.1, false)
+    else if hi - lo > 1 then (.psel r.1 (hi - 1) lo, false)
+    else (.bsel r.1 lo, false)
   | .cat l => (.concat (printList l).reverse, false)
   | .rep a n => (.repl n (printE a).1, false)
 def printList : List Expr → List VExpr
@@ -76,14 +92,20 @@ def isSig : Expr → Bool
 def promOk (ρ : Env) (promoted : Bool) (e : Expr) : Bool :=
   !promoted || inRange (selfWidth (printE e).1) false (evalF ρ e)
 
+/-- Condition of a `Mux` / `If`: both sides test "non-zero" — the simulator after masking to `len(c)` bits
+    (`If` always did; `Mux` since the fix of C01-mux-condition-unmasked), Verilog on the self-determined value
+    (`selfWidth` bits).  Trivially true when the two widths agree (`Mux(~b, x, y)`). -/
+def condOk (ρ : Env) (c : Expr) : Bool :=
+  decide (tn (selfWidth (printE c).1) (evalF ρ c) = 0) == decide (tn (bitsSign c).1 (evalF ρ c) = 0)
+
 mutual
 /-- Everything the printed text needs, beyond `fitsV`, to denote `evalF` over unbounded integers:
     constants fit their declared width, signal values are in range of their declaration (`EnvOk`),
-    slices are applied to signals only (after `lower_complex_slices`), are inside the signal and are not the
-    1-bit no-slice case on a signed signal, `Cat`/`Replicate` elements have the same width in Migen and in
-    Verilog, and promoted operands are non-negative and fit. -/
+    slices are applied to signals only (after `lower_complex_slices`) and are inside the signal,
+    `Cat`/`Replicate` elements have the same width in Migen and in Verilog, promoted operands are non-negative
+    and fit, and a `Mux` condition is zero in its Migen width iff it is in its Verilog width. -/
 def fitsP (ρ : Env) : Expr → Bool
-  | .const v w _ => decide (v.natAbs < 2 ^ w) && decide (0 < w)
+  | .const v w s => constOk v w s
   | .sig i w s => inRange w s (ρ i) && decide (0 < w)
   | .op1 .neg a => fitsP ρ a && promOk ρ (!(printE a).2) a
   | .op1 .not a => fitsP ρ a
@@ -92,10 +114,9 @@ def fitsP (ρ : Env) : Expr → Bool
       (o.isShift || (promOk ρ ((printE b).2 && !(printE a).2) a && promOk ρ ((printE a).2 && !(printE b).2) b))
   | .mux c a b =>
     fitsP ρ c && fitsP ρ a && fitsP ρ b &&
-      promOk ρ ((printE b).2 && !(printE a).2) a && promOk ρ ((printE a).2 && !(printE b).2) b
+      promOk ρ ((printE b).2 && !(printE a).2) a && promOk ρ ((printE a).2 && !(printE b).2) b && condOk ρ c
   | .slice a lo hi =>
     fitsP ρ a && isSig a && decide (lo < hi) && decide (hi ≤ (bitsSign a).1)
-      && !(decide ((bitsSign a).1 = 1) && (bitsSign a).2)
   | .cat l => fitsPList ρ l
   | .rep a n => fitsP ρ a && decide ((bitsSign a).1 = selfWidth (printE a).1) && decide (0 < n)
 def fitsPList (ρ : Env) : List Expr → Bool
